@@ -183,14 +183,16 @@ class Bech32DecoderBase(ABC):
     def _DecodeBech32(cls,
                       bech_str: str,
                       sep: str,
-                      checksum_len: int) -> Tuple[str, List[int]]:
+                      checksum_len: int,
+                      min_data_len: int = 1) -> Tuple[str, List[int]]:
         """
         Decode and validate a Bech32 string, determining its HRP and data.
 
         Args:
-            bech_str (str)    : Bech32 string
-            sep (str)         : Bech32 separator
-            checksum_len (int): Checksum length
+            bech_str (str)              : Bech32 string
+            sep (str)                   : Bech32 separator
+            checksum_len (int)          : Checksum length
+            min_data_len (int, optional): Minimum length of the data part, checksum excluded (default: 1)
 
         Returns:
             tuple[str, list[int]]: HRP (index 0) and data part (index 1)
@@ -223,7 +225,7 @@ class Bech32DecoderBase(ABC):
 
         # Get data and check it
         data_part = bech_str[sep_pos + 1:]
-        if (len(data_part) < (checksum_len + 1)
+        if (len(data_part) < (checksum_len + min_data_len)
                 or not all(x in Bech32BaseConst.CHARSET for x in data_part)):
             raise ValueError("Invalid bech32 format (data part not valid)")
 
